@@ -129,3 +129,9 @@ def obs_durrange(case):
         full = 1 if (r.resolution.mstart == 0 and r.resolution.mend >= len(txt.rstrip())) else 0
     return {"fam": "durrange", "n": case["n"], "u": case["u"], "D1": case["D1"], "D2": case["D2"],
             "ts": qa.ts_json(ts), "val": val, "full": full}
+
+
+def obs_daypod(case):
+    ts = ts_of(case["ts"])
+    val, _ = parse_val(case["text"], ts)
+    return {"fam": "daypod", "D": case["D"], "pod": case["pod"], "ts": qa.ts_json(ts), "val": val}
